@@ -217,8 +217,28 @@ class NestedParent(WrappingQuery):
                     self._nextdoc = None
 
         def skip_to(self, id):
-            self.child.skip_to(id)
-            self._gather()
+            if self._nextdoc is None:
+                raise matching.ReadTooFar
+            if id <= self._nextdoc:
+                # Already at or past the target
+                return
+
+            # The first parent at or after the target; its matching children
+            # (if any) come after it
+            child = self.child
+            parent = self.comb.after(id - 1)
+            if parent is None or not child.is_active():
+                # No parent, or no matching child, from here on
+                while child.is_active():
+                    child.next()
+                self._nextdoc = None
+                return
+            if child.id() < parent:
+                child.skip_to(parent)
+            if child.is_active():
+                self._gather()
+            else:
+                self._nextdoc = None
 
         def value(self):
             raise NotImplementedError(self.__class__)
